@@ -30,6 +30,8 @@ verus! {
 
 global size_of usize == 8;
 
+broadcast use vstd::layout::layout_of_primitives;
+
 /// `true` in contexts whose contract lists "a controlled panic" as an
 /// acceptable outcome.  Total functions do not assume it, so every panic
 /// site in them must be proved unreachable.  Arithmetic overflow is never
@@ -129,15 +131,20 @@ pub open spec fn ptr_aligned<T>(addr: int) -> bool {
 pub assume_specification<T>[<[T]>::as_ptr](s: &[T]) -> (p: *const T)
     ensures p@.addr == slice_addr(s), p@.provenance == slice_prov(s);
 
+// `add`/`sub` are specified for byte-sized pointees only (every use in the
+// code base is on *const u8); this keeps the symbolic product n * size_of::<T>()
+// -- a source of solver instability -- out of the obligations.
 pub assume_specification<T>[<*const T>::add](p: *const T, n: usize) -> (r: *const T)
     requires
-        prov_base(p@.provenance) <= p@.addr + n * size_of::<T>() <= prov_end(p@.provenance),
-    ensures r@.addr == p@.addr + n * size_of::<T>(), r@.provenance == p@.provenance;
+        size_of::<T>() == 1,
+        prov_base(p@.provenance) <= p@.addr + n <= prov_end(p@.provenance),
+    ensures r@.addr == p@.addr + n, r@.provenance == p@.provenance;
 
 pub assume_specification<T>[<*const T>::sub](p: *const T, n: usize) -> (r: *const T)
     requires
-        prov_base(p@.provenance) <= p@.addr - n * size_of::<T>() <= prov_end(p@.provenance),
-    ensures r@.addr == p@.addr - n * size_of::<T>(), r@.provenance == p@.provenance;
+        size_of::<T>() == 1,
+        prov_base(p@.provenance) <= p@.addr - n <= prov_end(p@.provenance),
+    ensures r@.addr == p@.addr - n, r@.provenance == p@.provenance;
 
 pub assume_specification<T: core::marker::PointeeSized, U>[<*const T>::cast::<U>](p: *const T) -> (r: *const U)
     ensures r@.addr == p@.addr, r@.provenance == p@.provenance;
